@@ -225,6 +225,9 @@ func TestC05(t *testing.T) {
 		seq++
 		w.Emit(trace.Ev{"t": "reset", "seq": seq, "cfg": cfg})
 		S := c.Members[0]
+		if _, err := S.DB.NewEmbeddedClient().NewDMap("c05known"); err != nil {
+			t.Fatal(err)
+		}
 		probe := func() {
 			seen := int(S.V.RoutingTable.NumMembers())
 			rc := redis.NewClient(&redis.Options{Addr: S.Name, MaxRetries: -1, DialTimeout: time.Second})
@@ -267,9 +270,24 @@ func TestC05(t *testing.T) {
 			try("cluster.routingtable", "", "cluster.routingtable")
 			try("cluster.members", "", "cluster.members")
 			// opening a DMap through the embedded client
-			_, err := S.DB.NewEmbeddedClient().NewDMap(fmt.Sprintf("c05open-%d-%d", mcq, seen))
-			sum.Evaluations++
-			w.Emit(trace.Ev{"t": "mcq", "MCQ": mcq, "seen": seen, "cmd": "NewDMap", "ret": classify(err).Ret, "applied": false, "detail": fmt.Sprint(err)})
+			// opening a DMap through the embedded client: a name never seen before, the name this member has served
+			// commands for, and a name that was opened through the embedded client while the quorum was still met
+			for _, name := range []string{fmt.Sprintf("c05open-%d-%d", mcq, seen), "c05m", "c05known"} {
+				dm, err := S.DB.NewEmbeddedClient().NewDMap(name)
+				applied := false
+				if err == nil {
+					pk := fmt.Sprintf("opened-%d", seen)
+					if dm.Put(ctx, pk, "v") == nil {
+						for _, m := range c.Live() {
+							if _, ok := m.V.DMap.VerifEntry(name, pk, partitions.PRIMARY); ok {
+								applied = true
+							}
+						}
+					}
+				}
+				sum.Evaluations++
+				w.Emit(trace.Ev{"t": "mcq", "MCQ": mcq, "seen": seen, "cmd": "NewDMap", "ret": classify(err).Ret, "applied": applied, "detail": fmt.Sprint(err)})
+			}
 		}
 		probe()
 		for len(c.Live()) > 1 {
